@@ -36,6 +36,11 @@ func shortFunc(fn string) string {
 	return fn
 }
 
+func decodingPkg(fn string) bool {
+	return strings.Contains(fn, "whatap/golib/io.") || strings.Contains(fn, "whatap/golib/lang/") ||
+		strings.Contains(fn, "whatap/golib/util/hll.")
+}
+
 // heap-profile buckets are per (stack, object size)
 type bucketKey struct {
 	stack [32]uintptr
@@ -103,17 +108,25 @@ func topAllocSite1() string {
 	if best < 0 {
 		return "?"
 	}
+	// name the innermost function of the decoding packages (an allocation made inside a container
+	// constructor of util/hmap is the doing of the decoder that passed the size)
 	fr := runtime.CallersFrames(recs[best].Stack())
+	first := "?"
 	for {
 		f, more := fr.Next()
 		if decoderFrame(f.Function) {
-			return shortFunc(f.Function)
+			if first == "?" {
+				first = shortFunc(f.Function)
+			}
+			if decodingPkg(f.Function) {
+				return shortFunc(f.Function)
+			}
 		}
 		if !more {
 			break
 		}
 	}
-	return "?"
+	return first
 }
 
 func childMain(args []string) {
@@ -187,11 +200,16 @@ func fatalSite(stderr string) string {
 	if i >= 0 {
 		stderr = stderr[i:]
 	}
-	m := fatalSiteRe.FindStringSubmatch(stderr)
-	if m == nil {
+	all := fatalSiteRe.FindAllStringSubmatch(stderr, -1)
+	if all == nil {
 		return "?"
 	}
-	return shortFunc(m[1])
+	for _, m := range all {
+		if decodingPkg(m[1]) {
+			return shortFunc(m[1])
+		}
+	}
+	return shortFunc(all[0][1])
 }
 
 type lockedBuf struct {
